@@ -161,7 +161,7 @@ Proof. exact member_sound. Qed.
 Theorem C24_member_sound_lists : forall x xs, MemberV x (list_term xs) -> In x xs.
 Proof. exact MemberV_list. Qed.
 
-(* UNBOUNDED COMPLETENESS of append and member on the translated definitions, every mode, arbitrary terms:
+(* UNBOUNDED COMPLETENESS of the six list relations on the translated definitions (first append and member), every mode, arbitrary terms:
    whenever a valuation th solves the state the call starts from (substitution, disequalities, domains,
    constraints) and the VALUES of the arguments under th are in the relation, the call delivers after
    finitely many steps an answer solved by a valuation th' that agrees with th on every variable that
@@ -181,6 +181,31 @@ Theorem C24_member_complete : forall x l, MemberV x l ->
   exists ans th' n, agree (st_nextv st) th th' /\ MstG th' ans /\
     emitsE (startq lib_defs) n (startq lib_defs (CCall BFS rel_member [a; b]) st) ans.
 Proof. exact member_complete. Qed.
+(* ... and of the four relations that use disequality (the inductive relations are those of the soundness theorems below;
+   permute against the relation as defined) *)
+Theorem C24_member1_complete : forall x l, Member1V x l ->
+  forall st th a b, MstG th st -> GoodS st -> stb st ->
+  tb (st_nextv st) a -> tb (st_nextv st) b -> app th a = x -> app th b = l ->
+  exists ans th' n, agree (st_nextv st) th th' /\ MstG th' ans /\
+    emitsE (startq lib_defs) n (startq lib_defs (CCall BFS rel_member1 [a; b]) st) ans.
+Proof. exact member1_complete. Qed.
+Theorem C24_rember_complete : forall x l o, RemberV x l o ->
+  forall st th a b c, MstG th st -> GoodS st -> stb st ->
+  tb (st_nextv st) a -> tb (st_nextv st) b -> tb (st_nextv st) c -> app th a = x -> app th b = l -> app th c = o ->
+  exists ans th' n, agree (st_nextv st) th th' /\ MstG th' ans /\
+    emitsE (startq lib_defs) n (startq lib_defs (CCall BFS rel_rember [a; b; c]) st) ans.
+Proof. exact rember_complete. Qed.
+Theorem C24_distinct_complete : forall l, DistinctV l ->
+  forall st th a, MstG th st -> GoodS st -> stb st -> tb (st_nextv st) a -> app th a = l ->
+  exists ans th' n, agree (st_nextv st) th th' /\ MstG th' ans /\
+    emitsE (startq lib_defs) n (startq lib_defs (CCall BFS rel_distinct [a]) st) ans.
+Proof. exact distinct_complete. Qed.
+Theorem C24_permute_complete : forall x y, PermuteV x y ->
+  forall st th a b, MstG th st -> GoodS st -> stb st ->
+  tb (st_nextv st) a -> tb (st_nextv st) b -> app th a = x -> app th b = y ->
+  exists ans th' n, agree (st_nextv st) th th' /\ MstG th' ans /\
+    emitsE (startq lib_defs) n (startq lib_defs (CCall BFS rel_permute [a; b]) st) ans.
+Proof. exact permute_complete. Qed.
 (* the general theorem they instantiate: any program built from ==, !=, domains, constraints, interleaving
    conjunction / disjunction, fresh and CALLS of recursively defined relations, for any definitions and any
    step-indexed value-level reading RelV of the relations that unfolds to the reading of the elaborated
@@ -270,3 +295,7 @@ Print Assumptions C24_member1_lists.
 Print Assumptions C24_append_complete.
 Print Assumptions C24_member_complete.
 Print Assumptions C24_calls_complete.
+Print Assumptions C24_member1_complete.
+Print Assumptions C24_rember_complete.
+Print Assumptions C24_distinct_complete.
+Print Assumptions C24_permute_complete.
